@@ -23,13 +23,13 @@ import (
 )
 
 const (
-	vC14SigLinger   = "tsi1-tagvalue-lingers-after-last-series-dropped"
+	vC14SigLinger    = "tsi1-tagvalue-lingers-after-last-series-dropped"
 	vC14SigResurface = "tsi1-dropped-measurement-tags-resurface-on-recreation"
-	vC14SigGhost    = "tsi1-shard-lists-series-dropped-from-that-shard-only"
-	vC14SigPhantom  = "tsi1-series-tombstone-lost-on-log-replay-after-series-file-compaction"
-	vC14SigDeadlock = "delete-vs-tsi-compaction-deadlock"
+	vC14SigGhost     = "tsi1-shard-lists-series-dropped-from-that-shard-only"
+	vC14SigPhantom   = "tsi1-series-tombstone-lost-on-log-replay-after-series-file-compaction"
+	vC14SigDeadlock  = "delete-vs-tsi-compaction-deadlock"
 	vC14SigPiecewise = "series-lingers-after-piecewise-time-range-deletes"
-	vC14BigLog      = 1 << 20
+	vC14BigLog       = 1 << 20
 )
 
 var vC14Measurements = []string{"m0", "m1", "m2"}
@@ -57,7 +57,7 @@ type vC14Case struct {
 	// "shard|key" of series that lost some but not all of their points to a time-range delete and
 	// have not left the shard since (see vC14SigPiecewise)
 	partial map[string]bool
-	checks           int
+	checks  int
 }
 
 func (c *vC14Case) fail(sig, format string, a ...interface{}) {
@@ -852,17 +852,8 @@ func vC14Run(rt *rapid.T, st *verifkit.Stats) {
 		case k < 92:
 			c.stepReopen()
 		default:
-			if c.sfileDeleted && cfg.LogSize != 1 && cfg.LogSize != vC14BigLog {
-				// Known finding: once the series file has been compacted, a deleted series id has no
-				// key any more and LogFile.execSeriesEntry skips its tombstone entry at the next
-				// open; if the insert already sits in an index file the id comes back in the
-				// shard's series id set. It needs a log file size that lets the tombstone stay in
-				// the log (not 1 B, not "never rolls"); excluded by construction for those sizes.
-				st.Exclude(vC14SigPhantom)
-				c.stepSnapshot()
-			} else {
-				c.stepSeriesFileCompact()
-			}
+			// (the tombstone-lost-on-log-replay defect that used to be excluded here is fixed in /repo)
+			c.stepSeriesFileCompact()
 		}
 		if bed.maxLevel > lvlBefore || len(bed.tsiFiles) > evBefore {
 			// new index files appeared: log->L1 and/or level compactions really ran in this step
